@@ -71,6 +71,71 @@ theorem within_complete (cwd directory target : Chars) (h1 : (abspath cwd direct
     simp only at h1
     simp [h1]
 
+/-! ### the data filter -/
+
+theorem dataFilter_inside (cwd path m : Chars) (loc : APath) (h : dataFilter cwd path m = some loc) :
+    loc = abspath cwd (joinPath path (m.dropWhile (· = '/'))) ∧ Inside (abspath cwd path) loc := by
+  unfold dataFilter at h
+  simp only at h
+  split at h
+  · rename_i hc
+    cases h
+    refine ⟨rfl, ?_⟩
+    unfold Inside
+    have hcc : (commonpath (abspath cwd path) (abspath cwd (joinPath path (m.dropWhile (· = '/'))))).comps
+        = (abspath cwd path).comps := by rw [hc]
+    unfold commonpath at hcc
+    simp only at hcc
+    rw [← hcc]
+    exact commonPrefix_prefix_right _ _
+  · cases h
+
+theorem extractAll_ok (cwd path : Chars) (ms : List Chars) (ps : List APath)
+    (h : extractAll cwd path ms = .ok ps) :
+    ps.length = ms.length ∧ ∀ p ∈ ps, ∃ m ∈ ms, dataFilter cwd path m = some p := by
+  induction ms generalizing ps with
+  | nil =>
+    unfold extractAll at h
+    cases h
+    exact ⟨rfl, by simp⟩
+  | cons m ms ih =>
+    unfold extractAll at h
+    cases hf : dataFilter cwd path m with
+    | none => rw [hf] at h; cases h
+    | some loc =>
+      rw [hf] at h
+      simp only at h
+      cases hr : extractAll cwd path ms with
+      | error e => rw [hr] at h; cases h
+      | ok locs =>
+        rw [hr] at h
+        simp only at h
+        cases h
+        obtain ⟨hl, hm⟩ := ih locs hr
+        refine ⟨by simp [hl], ?_⟩
+        intro p hp
+        rcases List.mem_cons.mp hp with rfl | hp
+        · exact ⟨m, by simp, hf⟩
+        · obtain ⟨m', hm', hf'⟩ := hm p hp
+          exact ⟨m', List.mem_cons_of_mem _ hm', hf'⟩
+
+theorem extractAll_of_all (cwd path : Chars) (ms : List Chars) (g : Chars → APath)
+    (h : ∀ m ∈ ms, dataFilter cwd path m = some (g m)) : extractAll cwd path ms = .ok (ms.map g) := by
+  induction ms with
+  | nil => rfl
+  | cons m ms ih =>
+    unfold extractAll
+    rw [h m (by simp), ih (fun m' hm' => h m' (List.mem_cons_of_mem _ hm'))]
+    rfl
+
+theorem dropWhile_slash_of_rel (m : Chars) (h : isAbs m = false) : m.dropWhile (· = '/') = m := by
+  cases m with
+  | nil => rfl
+  | cons c cs =>
+    have hc : c ≠ '/' := by
+      intro e; rw [e] at h; simp [isAbs] at h
+    simp [hc]
+
 /-! ### joining a plain member name -/
 
 /-- a path component that `normpath` keeps -/
